@@ -214,6 +214,24 @@ def parse(file_path):
 
 
 def write_hash_list(hash_list: MHLHashList, file_path: str):
+    """creates a new mhl file and writes the xml to disk, leaving nothing behind if that fails"""
+    directory_path = os.path.dirname(file_path)
+    directory_existed = os.path.isdir(directory_path)
+    try:
+        _write_hash_list(hash_list, file_path)
+    except BaseException:
+        # e.g. a file name that cannot be stored in XML: remove the incomplete temporary file (and the folder if
+        # it was only created for this file), otherwise later runs find a folder without a readable history
+        try:
+            os.remove(file_path + ".tmp")
+            if not directory_existed:
+                os.rmdir(directory_path)
+        except OSError:
+            pass
+        raise
+
+
+def _write_hash_list(hash_list: MHLHashList, file_path: str):
     """creates a new mhl file and writes the xml to disk
 
     we write the file step by step to reduce memory load while writing large files
